@@ -859,3 +859,145 @@ pub fn start_watchdog(ctx: &Ctx, suite: &str, soft_s: u64, hard_s: u64) {
         }
     });
 }
+
+// ------------------------------------------------------------------------------------------------
+// Tapes outside a suite (seed corpora) and the coverage-guided engine (libFuzzer via cargo-fuzz)
+
+/// `n` tapes from proptest's own generator, deterministic in `seed`.
+pub fn generate_tapes(seed: u64, n: usize, tape_len: usize) -> Vec<Vec<u32>> {
+    use proptest::strategy::ValueTree;
+    let mut cfg = Config::default();
+    cfg.rng_seed = RngSeed::Fixed(seed);
+    cfg.failure_persistence = None;
+    let mut runner = TestRunner::new(cfg);
+    let strategy = proptest::collection::vec(proptest::num::u32::ANY, 0..=tape_len);
+    (0..n).filter_map(|_| strategy.new_tree(&mut runner).ok().map(|t| t.current())).collect()
+}
+
+pub struct FuzzPlan {
+    pub target: &'static str,
+    pub procs: usize,
+    pub runs: u64,
+    pub max_len: usize,
+    pub timeout_s: u64,
+    pub seeds: Vec<Vec<u8>>,
+}
+
+/// Build the libFuzzer target with `cargo +nightly fuzz build`, run `procs` independent campaigns
+/// (all but the last over a fresh corpus seeded with `plan.seeds`, the last from an empty corpus),
+/// and replay every saved artifact strictly in-process through `replay`. A reproduced artifact is
+/// a failure; an artifact that does not reproduce, or an engine that cannot be built, is noted.
+pub fn fuzz_campaign(ctx: &Ctx, plan: &FuzzPlan, replay: &dyn Fn(&[u8]) -> Verdict) -> SuiteReport {
+    let mut rep = SuiteReport { name: format!("libfuzzer_{}", plan.target), ..Default::default() };
+    let harness = ctx.root.join("harness");
+    // VERIF_FUZZ_RUNS overrides the per-process execution budget (used when rehearsing)
+    let runs = std::env::var("VERIF_FUZZ_RUNS").ok().and_then(|v| v.parse::<u64>().ok()).unwrap_or(plan.runs);
+    let build = std::process::Command::new("cargo")
+        .args(["+nightly", "fuzz", "build", plan.target])
+        .current_dir(&harness)
+        .env("CARGO_NET_OFFLINE", "true")
+        .output();
+    match build {
+        Ok(o) if o.status.success() => {}
+        Ok(o) => {
+            rep.notes.push(format!("coverage-guided engine unavailable: cargo fuzz build failed: {}", String::from_utf8_lossy(&o.stderr).lines().rev().take(3).collect::<Vec<_>>().join(" | ")));
+            return rep;
+        }
+        Err(e) => {
+            rep.notes.push(format!("coverage-guided engine unavailable: {}", e));
+            return rep;
+        }
+    }
+    let bin = harness.join("fuzz").join("target").join("x86_64-unknown-linux-gnu").join("release").join(plan.target);
+    let work = harness.join("target").join("fuzz-work").join(format!("{}-{}-{}", plan.target, std::process::id(), ctx.seed));
+    let _ = std::fs::remove_dir_all(&work);
+    let mut children = Vec::new();
+    for i in 0..plan.procs.max(1) {
+        let corpus = work.join(format!("corpus{}", i));
+        let arts = work.join(format!("artifacts{}", i));
+        let _ = std::fs::create_dir_all(&corpus);
+        let _ = std::fs::create_dir_all(&arts);
+        let empty = i + 1 == plan.procs.max(1) && plan.procs > 1;
+        if !empty {
+            for (k, s) in plan.seeds.iter().enumerate() {
+                if k % plan.procs.max(1) == i || plan.seeds.len() < 64 {
+                    let _ = std::fs::write(corpus.join(format!("seed{:05}", k)), s);
+                }
+            }
+        }
+        let log = std::fs::File::create(work.join(format!("log{}", i))).ok();
+        let mut cmd = std::process::Command::new(&bin);
+        cmd.arg(&corpus)
+            .arg(format!("-runs={}", runs))
+            .arg(format!("-seed={}", (ctx.seed.wrapping_mul(2654435761) + i as u64) % 4_000_000_000 + 1))
+            .arg(format!("-max_len={}", plan.max_len))
+            .arg("-len_control=0")
+            .arg(format!("-timeout={}", plan.timeout_s))
+            .arg("-rss_limit_mb=3072")
+            .arg(format!("-artifact_prefix={}/", arts.display()))
+            .arg("-print_final_stats=1")
+            .stdout(std::process::Stdio::null());
+        match log {
+            Some(f) => {
+                cmd.stderr(f);
+            }
+            None => {
+                cmd.stderr(std::process::Stdio::null());
+            }
+        }
+        if let Ok(c) = cmd.spawn() {
+            children.push((i, c, empty));
+        }
+    }
+    let mut execs = 0u64;
+    let mut corpus_units = 0u64;
+    for (i, mut c, _) in children {
+        let _ = c.wait();
+        if let Ok(text) = std::fs::read_to_string(work.join(format!("log{}", i))) {
+            for line in text.lines() {
+                if let Some(v) = line.strip_prefix("stat::number_of_executed_units:") {
+                    execs += v.trim().parse::<u64>().unwrap_or(0);
+                }
+            }
+        }
+        corpus_units += std::fs::read_dir(work.join(format!("corpus{}", i))).map(|d| d.count() as u64).unwrap_or(0);
+        // artifacts
+        let arts = work.join(format!("artifacts{}", i));
+        let mut files: Vec<_> = std::fs::read_dir(&arts).map(|d| d.filter_map(|e| e.ok()).map(|e| e.path()).collect()).unwrap_or_default();
+        files.sort();
+        for f in files {
+            let name = f.file_name().unwrap().to_string_lossy().to_string();
+            let data = std::fs::read(&f).unwrap_or_default();
+            if name.starts_with("timeout-") || name.starts_with("oom-") || name.starts_with("slow-unit-") {
+                rep.notes.push(format!("libFuzzer saved {} ({} bytes): resource artifact, replayed below under the watchdog rules", name, data.len()));
+            }
+            let v = match guard(|| replay(&data)) {
+                Ok(v) => v,
+                Err(p) => Verdict::fail(format!("harness panic during artifact replay: {}", p)),
+            };
+            match v {
+                Verdict::Fail { msg, signature } => {
+                    if rep.failure.is_none() {
+                        rep.failure = Some(Failure {
+                            suite: rep.name.clone(),
+                            msg: format!("libFuzzer artifact {} reproduces in-process: {}", name, msg),
+                            signature,
+                            case: json!({"kind": "bytes", "hex": crate::bits::hex(&data)}),
+                            description: None,
+                        });
+                    }
+                }
+                _ => rep.notes.push(format!("artifact {} did not reproduce in-process (not reported as a violation)", name)),
+            }
+        }
+    }
+    rep.evaluations = execs;
+    // libFuzzer keeps an input only when it reaches new coverage: the final corpus size is the
+    // engine's own count of distinct, coverage-increasing inputs
+    rep.distinct_nontrivial = corpus_units;
+    rep.samples.push(json!({"engine": "libFuzzer (cargo-fuzz, ASan, debug assertions, overflow checks)", "target": plan.target, "processes": plan.procs, "runs_per_process": runs, "executions": execs, "final_corpus_units": corpus_units, "seeded_inputs": plan.seeds.len()}));
+    rep.extra.insert("fuzz_executions".into(), json!(execs));
+    rep.extra.insert("fuzz_corpus_units".into(), json!(corpus_units));
+    let _ = std::fs::remove_dir_all(&work);
+    rep
+}
